@@ -1268,21 +1268,18 @@ class Concatenate(CanBehaveLikeAVariable[T]):
         if self._id_ in sources:
             yield sources
             return
-        all_values = defaultdict(list)
         # The combined value exists (as the empty list) also when the child yields nothing.
-        all_values[self._id_] = []
+        combined = []
         for child_v in self._child_._evaluate__(sources):
-            child_v = copy(child_v)
-            for id_, val in child_v.items():
-                if id_ == self._child_._id_:
-                    child_v_unwrapped = val.value
-                    if not is_iterable(child_v_unwrapped):
-                        child_v_unwrapped = [child_v_unwrapped]
-                    all_values[self._id_].extend(child_v_unwrapped)
-                all_values[id_].append(val)
-            for s_id, s_val in sources.items():
-                all_values[s_id].append(s_val)
-        yield {k: HashedValue(v) for k, v in all_values.items()}
+            child_v_unwrapped = child_v[self._child_._id_].value
+            if not is_iterable(child_v_unwrapped):
+                child_v_unwrapped = [child_v_unwrapped]
+            combined.extend(child_v_unwrapped)
+        # The one row binds the combined value and leaves what was bound before as it was: the variables the child ranged
+        # over have no single value any more.
+        output = copy(sources)
+        output[self._id_] = HashedValue(combined)
+        yield output
 
     @property
     def _name_(self):
